@@ -68,6 +68,7 @@ impl Report {
     }
     pub fn absorb_exec(&mut self, out: &crate::proto::ExecOut) {
         self.execs += 1;
+        self.count("commands_run", out.steps.len() as u64);
         if let Some(f) = &out.fin {
             self.traces.push(f.trace);
             self.sim_ns += f.mono_advance_ns;
@@ -384,6 +385,7 @@ pub fn run_check(check: &dyn Check, cfg: &RunCfg) -> i32 {
                 "rule": check.rule_text(),
                 "samples": if sample_vals.is_empty() { vec![json!("no sample recorded")] } else { sample_vals },
                 "scenarios": done_scen,
+                "commands_run": agg.counters.get("commands_run").copied().unwrap_or(0),
                 "simulated_runs_per_hour": if wall > 0.0 { (agg.execs as f64 / wall * 3600.0) as u64 } else { 0 },
                 "seeds_per_hour": if wall > 0.0 { (done_scen as f64 / wall * 3600.0) as u64 } else { 0 },
                 "simulated_time_s": agg.sim_ns as f64 / 1e9,
